@@ -48,7 +48,7 @@
         ((ephemeron? x) (string-append "e" (hex (eph-id x obs))))
         ((pair? x) (if (<= d 0) "_"
                        (string-append "(" (fp (car x) (- d 1) obs) " . " (fp (cdr x) (- d 1) obs) ")")))
-        ((vector? x) (if (and (= (vector-length x) 1) (exact-integer? (vector-ref x 0)))
+        ((vector? x) (if (and (>= (vector-length x) 1) (exact-integer? (vector-ref x 0)))
                          (string-append "k" (hex (vector-ref x 0)))
                          "?vector"))
         ((port? x) "p")
@@ -95,6 +95,8 @@
      (lambda (op)
        (case (car op)
          ((K H) (let ((n (fresh!))) (vector-set! R (cadr op) (make-vector 1 n))))
+         ((B) (let* ((n (fresh!)) (v (make-vector (max 1 (list-ref op 2)) #f)))
+                (vector-set! v 0 n) (vector-set! R (cadr op) v)))
          ((C) (fresh!) (vector-set! R (cadr op) (cons (vector-ref R (list-ref op 2)) (vector-ref R (list-ref op 3)))))
          ((E) (let* ((n (fresh!))
                      (e (make-ephemeron (vector-ref R (list-ref op 2)) (vector-ref R (list-ref op 3)))))
